@@ -453,9 +453,10 @@ def match_truth_check(sc):
         if back.path_as_str != m.path_as_str or back.data is not m.data:
             return f"get_match(m.path) finds {back.path_as_str} instead of {m.path_as_str}", True
         if nodup_applies:
-            if m.path_as_str in seen:
+            where = tuple((type(x.data_name).__name__, x.data_name) for x in pml)   # the rendering is ambiguous for keys holding '.' or '['
+            if where in seen:
                 return f"location {m.path_as_str} reported twice", True
-            seen[m.path_as_str] = True
+            seen[where] = True
     # equality on pairs
     rng = random.Random(len(ms))
     for _ in range(min(30, len(ms) * len(ms))):
@@ -473,6 +474,14 @@ def _has_nested_dup(steps):
 
 def match_truth_oracle(ctx):
     def make(rng):
+        if rng.random() < 0.1:
+            # keys whose rendering is ambiguous: "a.b" next to a -> b, "c[0]" next to c -> [0]
+            a, b_ = rng.sample(gen.KEYS, 2)
+            doc = {a + "." + b_: rng.choice([1, {"z": 1}]), a: {b_: rng.choice([2, {"z": 2}])},
+                   b_ + "[0]": 3, b_: [rng.choice([4, {"z": 4}])]}
+            items = list(doc.items())
+            rng.shuffle(items)
+            return {"doc": enc(dict(items)), "path": rng.choice([[["rec"]], [["gwc"]], [["gwc"], ["gwc"]], [["rec"], ["k", "z"]]]), "src": None}
         sc = gen.gen_query(rng, "nopar", api="find_matches", with_src=rng.random() < 0.35)
         if sc.get("src") and rng.random() < 0.5:
             # explicit key / index steps only (what Match.path itself is made of), often the bare root
@@ -735,6 +744,58 @@ def spelling_oracle(ctx):
     names = sorted(n for n in names if not (n.startswith("__") and n.endswith("__")) and n not in DOCUMENTED_ATTRS)
     it = iter(names)
     _run(ctx, "spelling", len(names), len(names), lambda rng: {"name": next(it)}, spelling_check)
+
+
+def interrupted_use_check(sc):
+    """a first use that dies half-way (RecursionError while the chain of a very long expression is
+    walked) must leave the expression the value it was: used again with enough stack it renders and
+    selects like a twin built by the same steps"""
+    n, first = sc["n"], sc["first"]
+    keys = ["k%d" % (i % 5) for i in range(n)]
+
+    def build():
+        e = path
+        for k in keys:
+            e = e[k]
+        return e
+    doc = leaf = {}
+    for k in keys[:-1]:
+        leaf[k] = {}
+        leaf = leaf[k]
+    leaf[keys[-1]] = "the value"
+    victim = build()
+    old = sys.getrecursionlimit()
+    died = False
+    try:
+        sys.setrecursionlimit(max(200, n // 3))
+        try:
+            if first == "render":
+                str(victim)
+            else:
+                get(victim, doc)
+        except RecursionError:
+            died = True
+        sys.setrecursionlimit(max(old, 8 * n + 1000))
+        twin = build()
+
+        def outcome(f, *a):
+            try:
+                return ("value", f(*a))
+            except Exception as e:  # noqa
+                return ("raised", type(e).__name__)
+        if outcome(str, victim) != outcome(str, twin):
+            return f"after a first {first} cut short by RecursionError a {n}-step expression renders differently from its twin", True
+        if outcome(get, victim, doc) != outcome(get, twin, doc):
+            return f"after a first {first} cut short by RecursionError: get gives {outcome(get, victim, doc)!r:.80}, its twin {outcome(get, twin, doc)!r:.80}", True
+    finally:
+        sys.setrecursionlimit(old)
+    return None, died
+
+
+def interrupted_use_oracle(ctx):
+    cases = [{"n": 1500, "first": "render"}, {"n": 1200, "first": "get"}]
+    it = iter(cases)
+    _run(ctx, "interrupted_use", len(cases), len(cases), lambda rng: next(it), interrupted_use_check)
 
 
 def long_scan_check(sc):
